@@ -451,6 +451,9 @@ class Gen:
 
     def path(self, depth=0):
         root_kind = self.r.range(0, 9)
+        if self.in_loop and depth == 0 and self.chance(45):
+            # the loop variable / loop drop, so that order, limit, offset and reversed are visible in the output
+            return self.r.choice(["i", "item", "j", "i", "item", "forloop.index", "forloop.last", "tablerowloop.col", "forloop.length"])
         if root_kind < 7:
             s = self.r.choice(NAMES)
         elif root_kind == 7:
@@ -620,7 +623,10 @@ class Gen:
             return s + self.tag("endfor")
         if k < 71:
             self.feat.add("tablerow")
-            return self.tag("tablerow " + self.loop_expr(table=True)) + self.block() + self.tag("endtablerow")
+            self.in_loop += 1
+            s = self.tag("tablerow " + self.loop_expr(table=True)) + self.block() + self.tag("endtablerow")
+            self.in_loop -= 1
+            return s
         if k < 75:
             return self.tag("capture " + self.r.choice(["v", "w", "cap"])) + self.block() + self.tag("endcapture")
         if k < 80:
